@@ -58,7 +58,7 @@ def cases(draw, tier):
     cfg = tg.Cfg(tier, max_leaves=8 if tier == "quick" else 12, roots=("struct", "struct", "struct", "array", "array", "unionref"))
     spec = draw(tg.type_specs(cfg))
     value = tg._draw_value(draw, spec, cfg)
-    return {"type": spec, "value": value, "exec": draw(st.integers(0, 2)) == 0, "offset": draw(st.sampled_from([0, 8, 24])), "cpu_first": draw(st.booleans())}
+    return {"type": spec, "value": value, "exec": draw(st.integers(0, 2)) == 0, "offset": draw(st.sampled_from([0, 8, 24])), "cpu_first": draw(st.booleans()), "decl_first": draw(st.integers(0, 2)) == 0}
 
 
 def strategy(tier):
@@ -153,6 +153,13 @@ def run_case(case):
     if is_raised(classes):
         return fail("sort_classes_raised", f"{classes}", classes.key, labels)
     pre_ctx = pre_ks = None
+    if case.get("decl_first"):
+        # history: the plain (marker-less) declarations are asked for first, as a CPU context does for cffi
+        labels.add("plain_declarations_before_sources")
+        for c in classes:
+            r = sut(c._gen_c_decl, {})
+            if is_raised(r):
+                return fail("declarations_raised", f"{c.__name__}: {r}", r.key, labels)
     if case.get("exec") or case.get("cpu_first"):
         # history: the classes are first used on a CPU context (which asks them for their plain declarations and
         # compiles their API); the GPU sources generated afterwards in the same process must be unaffected
